@@ -89,13 +89,13 @@ def extract_tables(kind, flavour, with_aux):
         # dynamic cross-check + callable measurement on a fresh state
         st = ChainState(pos=np.array([0.3, -0.2, 0.5]), mom=np.array([0.1, 0.4, -0.3]), dir=1)
         val = getattr(system, m)(st)
-        key = next(k for k in st._cache if k[0].endswith("." + m))
+        key = next(k for k in st._cache if (k[0] if isinstance(k, tuple) else str(k)).endswith("." + m))
         dyn = sorted(v for v, ks in st._dependencies.items() if key in ks)
         if dyn != declared[m]:
             raise MachineryError(f"dependency extraction mismatch for {kind}.{m}: closure {declared[m]} vs dynamic {dyn}")
         callable_v[m] = callable(val)
         # does evaluating m fill its auxiliary keys in this return convention?
-        filled = [a for a in aux[m] if any(k[0].endswith("." + a) and st._cache.get(k) is not None for k in st._cache)]
+        filled = [a for a in aux[m] if any((k[0] if isinstance(k, tuple) else str(k)).endswith("." + a) and st._cache.get(k) is not None for k in st._cache)]
         withaux[m] = bool(aux[m]) and len(filled) == len(aux[m])
     return {"declared": declared, "aux": aux, "callable": callable_v, "withaux": withaux, "memo": memo}
 
@@ -206,8 +206,10 @@ class World:
         st, out = self.objs[o], {}
         sysid = id(self.systems[s])
         for k, v in st._cache.items():
-            if k[1] == sysid:
-                out[k[0].split(".", 1)[1]] = "N" if v is None else "E"
+            # documented key: ("Class.method", id(system)); anything else is attributed to every system
+            name, owner = (k[0], k[1]) if isinstance(k, tuple) and len(k) == 2 else (str(k), sysid)
+            if owner == sysid:
+                out[name.split(".", 1)[-1]] = "N" if v is None else "E"
         return out
 
     def apply(self, act):
@@ -247,7 +249,7 @@ class World:
             cc_before = dict(self.objs[o]._call_counts)
             ret = getattr(self.systems[s], m)(self.objs[o])
             evald = sorted(k for k in model.calls if model.calls[k] > before.get(k, 0))
-            counted = sorted(k[0].split(".", 1)[1] for k, v in self.objs[o]._call_counts.items()
+            counted = sorted((k[0] if isinstance(k, tuple) else str(k)).split(".", 1)[-1] for k, v in self.objs[o]._call_counts.items()
                              if v > cc_before.get(k, 0))
             other = [ss for ss in self.models if ss != s]
             # from-scratch oracle (its evaluations are not counted against the model)
